@@ -370,3 +370,55 @@ def append_sites(fn, wrappers=None, sd=None):
                     yield t2, src, (guard_facts(fn, b2, st2, sd=sd) if sd else guard_facts(fn, b2, st2)) + gf, st2['loc']
             else:
                 yield tgt, src, gf, st['loc']
+
+
+def min_defs(fn):
+    """{variable id: [(operand, operand)]} for every definition of a local as the minimum of two values: an initialiser / assignment
+    that is minlike(), or `v = a;` directly followed by `if(v > b) v = b;` (>=, or the mirrored `b < v`)"""
+    from .core import walk, assign_parts_raw, show
+    out = {}
+    def defs_of(s_):
+        if not isinstance(s_, dict):
+            return
+        if s_.get('k') == 'DeclStmt':
+            for v in s_.get('decls', []):
+                if v.get('init') is not None:
+                    yield v['id'], v['init']
+        else:
+            ap = assign_parts_raw(s_)
+            if ap and ap[2] == '=' and strip(ap[0]).get('k') == 'DeclRefExpr':
+                yield strip(ap[0])['id'], ap[1]
+    def lists(t):
+        if isinstance(t, list):
+            yield t
+            for y in t:
+                yield from lists(y)
+        elif isinstance(t, dict):
+            for k_ in ('body', 'then', 'else', 'sub', 'init'):
+                v = t.get(k_)
+                if isinstance(v, (list, dict)):
+                    yield from lists(v)
+    for L in lists(fn.tree):
+        for i, s_ in enumerate(L):
+            for vid, init in defs_of(s_):
+                m = minlike(init)
+                if m:
+                    out.setdefault(vid, []).append(m)
+                    continue
+                nxt = L[i + 1] if i + 1 < len(L) else None
+                if isinstance(nxt, dict) and nxt.get('k') == 'IfStmt' and nxt.get('else') is None:
+                    lits = [f for f in literals(nxt['cond'], True)]
+                    body = nxt.get('then')
+                    while isinstance(body, dict) and body.get('k') == 'CompoundStmt' and len(body.get('body') or []) == 1:
+                        body = body['body'][0]
+                    ap = assign_parts_raw(body) if isinstance(body, dict) else None
+                    if len(lits) == 1 and lits[0][0] == 'cmp' and ap and ap[2] == '=' and strip(ap[0]).get('id') == vid:
+                        _, op, l, r = lits[0]
+                        lim = None
+                        if op in ('>', '>=') and strip(l).get('id') == vid:
+                            lim = r
+                        elif op in ('<', '<=') and strip(r).get('id') == vid:
+                            lim = l
+                        if lim is not None and show(strip(lim)) == show(strip(ap[1])):
+                            out.setdefault(vid, []).append((strip(init), strip(lim)))
+    return out
